@@ -104,7 +104,7 @@ MUTANTS = [
         "        if not (immutable and isinstance(node.ctx, ast.Load)):",
         "        if not (immutable and isinstance(node.ctx, ast.Load)) and not isinstance(node.ctx, ast.Del):")]),
     ('visitor-nested-calls-not-deferred', ['C05', 'C06'], [(A,
-        "        if self.namespace.parent is None:\n            self.process_Call(node)\n        else:\n            self.to_revisit.append((node, self.namespace))",
+        "        if self.namespace.parent is None or self.revisiting:\n            self.process_Call(node)\n        else:\n            self.to_revisit.append((node, self.namespace))",
         "        self.process_Call(node)")]),
     ('visitor-kwargs-immutable-too', ['C05', 'C06'], [(A,
         "            varkwargs = self.namespace[name] = Arg(name)\n        if main:",
